@@ -23,7 +23,7 @@ RULE = (
     "None, Vector, Orientation); optional mutate, static require, modular scenarios; 3/4 of the programs "
     "have behaviours drawing such values at every step (also in sub-behaviours under do / do choose / do "
     "shuffle, monitors, require[p] and hard require at run time, random terminate), records and "
-    "termination conditions. Faults: every truncation point of each scene encoding, every truncation point of each replay up to a cap (quick 160 / thorough 1200 points: the first third exhaustively, the rest sampled), "
+    "termination conditions. Faults: every truncation point of each scene encoding, every truncation point of each replay up to a cap (quick 160 / thorough 600 points: the first third exhaustively, the rest sampled), "
     "random + structured single-byte corruptions, cross-decoding with the neighbouring program, with "
     "mode2D / param override / other modular scenario variants and an all-pairs matrix of compile options; "
     "divergence: every (object, dynamic property) x tolerance {0, 1e-3, 0.5} x offset {+-0.5 tol, +-2 tol} x "
@@ -64,8 +64,8 @@ MIN_COUNTERS = {
         "written_float": 100,
     },
     "thorough": {
-        "scene_roundtrips": 1000,
-        "truncations_scene": 200000,
+        "scene_roundtrips": 800,
+        "truncations_scene": 150000,
         "corruptions_scene": 100000,
         "cross_decodes": 1000,
         "sim_replays": 800,
@@ -190,6 +190,8 @@ class Ctx:
 
     def finish(self):
         m = self.mon
+        for k, v in GEN_ERRORS.items():
+            self.skip("scene_generation_error:" + k, v)
         self.bump("values_written", m.writes)
         self.bump("values_read", m.reads)
         for k, v in m.types_written.items():
@@ -202,6 +204,14 @@ class Ctx:
             if n:
                 self.bump(base, n)
         return self.res
+
+
+def inconclusive(ctx, out, where):
+    """watchdog / memory outcomes are never verdicts: count them and tell the caller to move on"""
+    if out in ("timeout", "mem"):
+        ctx.skip(f"{where}_{out}")
+        return True
+    return False
 
 
 def guarded(fn, seconds=2.0):
@@ -240,6 +250,9 @@ def compile_prog(prog, **over):
     return su.compile_scenic(prog["text"], **kw)
 
 
+GEN_ERRORS = {}
+
+
 def scene_seed(seed, idx, k):
     return (seed * 7919 + idx * 104729 + k * 13 + 1) % (2**31)
 
@@ -252,6 +265,9 @@ def gen_scene(sc, seed, idx, k):
     try:
         scene, _ = sc.generate(maxIterations=300, verbosity=0)
     except RejectionException:
+        return None
+    except Exception as e:  # a failure of scene generation itself is not this property's business
+        GEN_ERRORS[type(e).__name__] = GEN_ERRORS.get(type(e).__name__, 0) + 1
         return None
     return scene
 
@@ -318,6 +334,8 @@ def check_program(ctx, idx, prev):
         ctx.res["evaluations"] += 1
         # ---- encode / decode round trip
         out, data = guarded(lambda: sc.sceneToBytes(scene))
+        if inconclusive(ctx, out, "encode"):
+            continue
         if out != "ok":
             ctx.viol(None, "encode", f"sceneToBytes raised {type(data).__name__}: {data}", {**W, "k": k})
             continue
@@ -328,6 +346,8 @@ def check_program(ctx, idx, prev):
         out, scene2 = guarded(lambda: sc.sceneFromBytes(stream))
         rser = ctx.mon.last()
         ctx.bump("scene_roundtrips")
+        if inconclusive(ctx, out, "roundtrip"):
+            continue
         if out != "ok":
             ctx.viol(None, "roundtrip", f"sceneFromBytes of an intact encoding raised {type(scene2).__name__}: {scene2}", {**W, "k": k})
             continue
@@ -346,7 +366,9 @@ def check_program(ctx, idx, prev):
         else:
             ctx.bump("roundtrip_equal")
         out, data2 = guarded(lambda: sc.sceneToBytes(scene2))
-        if out != "ok" or data2 != data:
+        if inconclusive(ctx, out, "reencode"):
+            pass
+        elif out != "ok" or data2 != data:
             ctx.viol(None, "roundtrip-reencode", "re-encoding the decoded scene gives different bytes", {**W, "k": k})
         if len(wlog) > 0:
             did.add("rt")
@@ -431,6 +453,8 @@ def check_program(ctx, idx, prev):
             ctx.bump("cross_option_" + name)
             if out == "SE":
                 ctx.bump("cross_refused")
+            elif inconclusive(ctx, out, "cross"):
+                pass
             else:
                 ctx.viol(None, "cross-options", f"scene decoded by the same program compiled with {over}: outcome {out} {v if out != 'ok' else ''}", {**W, "variant": name})
             s2 = gen_scene(sc2, ctx.seed, idx, 99)
@@ -441,6 +465,8 @@ def check_program(ctx, idx, prev):
                     ctx.bump("cross_decodes")
                     if out == "SE":
                         ctx.bump("cross_refused")
+                    elif inconclusive(ctx, out, "cross"):
+                        pass
                     else:
                         ctx.viol(None, "cross-options", f"scene of the program compiled with {over} decoded by the plain compile: outcome {out}", {**W, "variant": name, "reverse": True})
     if {"rt", "trunc", "corr"} <= did:
@@ -478,6 +504,8 @@ def check_simulation(ctx, prog, sc, scene, scene_data, idx, k, mutated, rng):
     wlog = list(sim1._replayOut._vlog)
     replay = sim1.getReplay()
     out, full = guarded(lambda: sc.simulationToBytes(sim1))
+    if inconclusive(ctx, out, "simulationToBytes"):
+        return
     if out != "ok":
         ctx.viol(None, "simulate", f"simulationToBytes raised {type(full).__name__}: {full}", W)
         return
@@ -498,6 +526,8 @@ def check_simulation(ctx, prog, sc, scene, scene_data, idx, k, mutated, rng):
         out, sim2 = guarded(lambda: run_replay(how), 20)
         ctx.bump("sim_replays")
         ctx.res["evaluations"] += 1
+        if inconclusive(ctx, out, "replay"):
+            continue
         if out != "ok" or sim2 is None:
             ctx.viol(None, "replay", f"replay ({how}) of an intact recording failed: {out} {sim2}", {**W, "how": how})
             continue
@@ -524,6 +554,8 @@ def check_simulation(ctx, prog, sc, scene, scene_data, idx, k, mutated, rng):
             d3 = lib.dump_sim(sim3)
             if d3["actions"][: len(d1["actions"])] != d1["actions"] or d3["trajectory"][: len(d1["trajectory"])] != d1["trajectory"]:
                 ctx.viol(None, "replay-prefix", "replay continued past the end of the recording differs on the recorded prefix", W)
+        elif inconclusive(ctx, out, "replay_prefix"):
+            pass
         elif out != "ok":
             ctx.viol(None, "replay-prefix", f"replay continued past the end raised {type(sim3).__name__}: {sim3}", W)
     if len(wlog) == 0:
@@ -532,7 +564,7 @@ def check_simulation(ctx, prog, sc, scene, scene_data, idx, k, mutated, rng):
     # ---- truncation of the replay data: every point
     hdr = 6
     pts = range(len(replay))
-    cap = 160 if tier == "quick" else 1200
+    cap = 160 if tier == "quick" else 600
     if len(replay) > cap:
         head = cap // 3
         pts = sorted(set(list(range(0, head)) + rng.sample(range(head, len(replay)), cap - head)))
@@ -676,6 +708,8 @@ def option_matrix(ctx):
             if out == "SE":
                 ctx.bump("cross_refused")
                 continue
+            if inconclusive(ctx, out, "cross"):
+                continue
             key = None
             pa, pb = oa.get("params", {}), ob.get("params", {})
             rest_equal = {k: v_ for k, v_ in oa.items() if k != "params"} == {k: v_ for k, v_ in ob.items() if k != "params"}
@@ -765,6 +799,8 @@ def run_divergence(ctx, cases):
         ctx.res["evaluations"] += 1
         reported = out == "exc" and isinstance(v, DivergenceError)
         desc = f"{c['prop']} of object {c['obj']} offset by {c['delta']} from step {c['from']} (tolerance {c['tol']}, continueAfterDivergence={c['cont']})"
+        if inconclusive(ctx, out, "divergence"):
+            continue
         if out not in ("ok", "exc") or (out == "exc" and not reported):
             ctx.viol(None, "divergence", f"{desc}: unexpected outcome {out} {v}", {"case": c})
             continue
@@ -782,6 +818,10 @@ def run_divergence(ctx, cases):
             if not reported:
                 key = None
                 if c["prop"] in scalar_props and c["delta"] < 0:
+                    key = "divergence.signed-scalar-difference"
+                if c["prop"] == "flag" and (c["from"] + c["obj"]) % 2 == 0:
+                    # bool is a Real: recorded True, actual False gives the signed difference -1 at the first
+                    # offset step; the next step (+1) is only observable when an exception is raised
                     key = "divergence.signed-scalar-difference"
                 ctx.viol(key, "divergence", f"{desc}: divergence beyond the tolerance NOT reported", {"case": c})
             else:
@@ -802,7 +842,7 @@ def run_divergence(ctx, cases):
 
 def plan(tier, seed):
     nshards = 12 if tier == "quick" else 32
-    nprog = 48 if tier == "quick" else 256
+    nprog = 48 if tier == "quick" else 192
     import os
 
     if os.environ.get("VERIF_C18_NPROG"):  # development aid (MIN_COUNTERS then make the run INCONCLUSIVE)
